@@ -54,7 +54,8 @@ def main():
     ms = json.load(open(os.path.join(ROOT, "selftest", "mutants.json")))
     if len(sys.argv) > 1:
         ms = [m for m in ms if any(a in m["id"] for a in sys.argv[1:])]
-    with mp.Pool(min(16, len(ms))) as pool:
+    # one fresh process per mutant: the contract database is cached per process and contract probes replace it
+    with mp.Pool(min(16, len(ms)), maxtasksperchild=1) as pool:
         res = pool.map(run_mutant, ms, chunksize=1)
     rc = 0
     exp = {m["id"]: m.get("expect", "killed") for m in ms}
